@@ -221,11 +221,19 @@ func (e *env) signerSet(users []int, committee bool, alphabetOnly bool, member b
 		d = append(d, "alphabet")
 	}
 	if member {
-		s = append(s, world.G(e.w.Members[0]))
-		if e.w.Members[0].ScriptHash() == e.w.Majority.ScriptHash() {
+		// a single committee member; on committees of even size half of the committee (n/2 of n), the
+		// largest coalition that is not a majority
+		ms := e.w.Members[0]
+		label := "member"
+		if n := len(e.w.Privs); n%2 == 0 {
+			ms = world.Multi(e.w.Privs, n/2)
+			label = "half-committee"
+		}
+		s = append(s, world.G(ms))
+		if ms.ScriptHash() == e.w.Majority.ScriptHash() {
 			w.committee = true
 		}
-		d = append(d, "member")
+		d = append(d, label)
 	}
 	if len(d) == 0 {
 		d = []string{"nobody"}
